@@ -146,7 +146,14 @@ func (k *c13Key) verifyBoth(c *core.Ctx, digest []byte, r, s *big.Int, class str
 	c.Eval(1)
 	name := k.curve.Params().Name
 	var f, st bool
-	panF, pvF, _ := core.Guard(func() { f = ecdsa.Verify(&k.fork.PublicKey, digest, new(big.Int).Set(r), new(big.Int).Set(s)) })
+	// the same operand objects are verified twice, as a caller holding one (r, s) pair would: the verdict
+	// must be the same both times
+	fr, fs := new(big.Int).Set(r), new(big.Int).Set(s)
+	var f2 bool
+	panF, pvF, _ := core.Guard(func() {
+		f = ecdsa.Verify(&k.fork.PublicKey, digest, fr, fs)
+		f2 = ecdsa.Verify(&k.fork.PublicKey, digest, fr, fs)
+	})
 	panS, _, _ := core.Guard(func() { st = stdecdsa.Verify(&k.std.PublicKey, digest, new(big.Int).Set(r), new(big.Int).Set(s)) })
 	d := map[string]any{"curve": name, "class": class, "digest": core.Hex(digest), "r": r.Text(16), "s": s.Text(16), "pub_x": k.fork.X.Text(16), "pub_y": k.fork.Y.Text(16)}
 	if panF {
@@ -155,6 +162,10 @@ func (k *c13Key) verifyBoth(c *core.Ctx, digest []byte, r, s *big.Int, class str
 	}
 	if panS {
 		c.Class("std_panicked_case_dropped")
+		return
+	}
+	if f2 != f {
+		c.Violation(fmt.Sprintf("%s:Verify:verdict-changes-on-repeat", name), fmt.Sprintf("verifying the same (r, s) objects twice gives %v then %v; crypto/ecdsa gives %v", f, f2, st), d)
 		return
 	}
 	if f != st {
